@@ -229,7 +229,7 @@ def operations(n, universe, extra=()):
     yield from extra
 
 
-def step_check(make, universe, states, ops_for, label, has_sort=False, partial_ok=('extend',), conflict=None, extra_reads=None):
+def step_check(make, universe, states, ops_for, label, has_sort=False, partial_ok=('extend', 'update'), conflict=None, extra_reads=None):
     """make(seq) -> fresh container holding seq.  For every state and operation: compare with the model."""
     results = []
     for seq in states:
@@ -285,7 +285,7 @@ def step_check(make, universe, states, ops_for, label, has_sort=False, partial_o
         try:
             c = make(seq)
             d = c.copy()
-            fresh = [u for u in universe if u not in seq]
+            fresh = [u for u in universe if u not in seq and not (conflict is not None and conflict(list(seq) + [u]))]
             if fresh:
                 d.append(fresh[0])
             if seq:
